@@ -200,7 +200,14 @@ def evaluate(ctx, cases, exe, model):
             # the class of K-C13-1: a declaration strips a whitespace node that xml:space="preserve" protects
             ctx.count("xml-space-class")
             if ra[0] == "ok" and rb[0] == "ok" and ra[1] != rb[1]:
-                known.append(c)
+                known.append(("K-C13-1", c))
+            continue
+        kb = [sg.KNOWN_CLASS_BLOCKS[bn] for bn in c["blocks"] if bn in sg.KNOWN_CLASS_BLOCKS]
+        if kb:
+            # the class of K-C13-2: xsl:number level="any" with a from pattern
+            ctx.count("number-any-from-class")
+            if ra[0] == "ok" and rb[0] == "ok" and ra[1] != rb[1]:
+                known.append((kb[0], c))
             continue
         if ra[0] != "ok" or rb[0] != "ok" or rp[0] != "ok":
             orc.append({"case": c, "what": "a transformation failed: A=%r B=%r probe=%r" % (ra[:3], rb[:3], rp[:3])})
@@ -343,6 +350,8 @@ def run(ctx):
     cases = gen_cases(ctx, count)
     # the class of K-C13-1 (xml:space="preserve" above a stripped node) is generated apart, and only counted
     xs_cases = [gen_case(ctx, "x%d" % i, "xml-space", xmlspace=True, nblocks=2) for i in range(12 if not ctx.thorough else 200)]
+    # the class of K-C13-2 (xsl:number level="any" with from) likewise
+    xs_cases += [gen_case(ctx, "y%d" % i, "number-any-from", blocks=["number-any-from"]) for i in range(12 if not ctx.thorough else 200)]
     ctx.cov["samples"] = [sg.sheet_model(c["main"]) + " on " + sg.serialize(c["doc"])[:120] for c in cases[200:206]]
     corr, orc, kn = evaluate(ctx, cases + xs_cases, exe, model)
     if (corr or not proved or not model or ctx.broken) and not orc and not ctx.thorough:
@@ -352,14 +361,14 @@ def run(ctx):
         corr += c2
         orc += o2
         kn += k2
-    if kn:
-        hits.add("K-C13-1")
+    for key, c in kn:
+        hits.add(key)
     for key in sorted(hits):
         if key in known:
             ctx.known_finding("%s %s" % (key, known[key]["what"]))
         else:
             ctx.violation("unlisted", "# C13: deviation of class %s observed but not listed as a known finding\n%s"
-                          % (key, replay_entry({"case": kn[0], "what": "xml:space class"}) if kn else ""))
+                          % (key, "\n".join(replay_entry({"case": c, "what": k}) for k, c in kn if k == key)))
     if corr:
         x = corr[0]
         ctx.broken.append("correspondence strip: %d of %d cases differ between the extracted model and the library, e.g. %s: library %s model %s (testers %s)" % (
